@@ -625,12 +625,15 @@ search_page_desc(kdump_ctx_t *ctx, kdump_pfn_t pfn,
 			idx = pfn_idx3(curpfn) - block->idx3;
 			if (!idx--)
 				return error_dup(ctx, off, block, curpfn);
+			unsigned short oldn = block->n;
 			if (idx >= block->n)
 				block->n = idx + 1;
 			if (block->n >= block->alloc) {
 				res = realloc_pfn_offs(block, PFN_IDX3_SIZE);
-				if (res != KDUMP_OK)
+				if (res != KDUMP_OK) {
+					block->n = oldn;
 					return error_pfn_offs(ctx, res);
+				}
 			}
 		}
 
